@@ -74,6 +74,7 @@ structure Obs where
   logs : List (Nat × List LogEnt) := []                -- L sections
   arrs : List (Nat × List (Option Item)) := []         -- A sections (none = an item the harness could not decode)
   openL : Option (List Nat) := none
+  dead : List Nat := []                                -- `closed=`: connections the server ended since the previous op
   bad : Bool := false
 
 def parseSection (o : Obs) (tok : String) : Obs :=
@@ -111,6 +112,10 @@ def parseSection (o : Obs) (tok : String) : Obs :=
             | some ([svc, thr, n], kd) => some (⟨⟨svc, thr⟩, c, n, kd⟩ : Item)
             | _ => none)
         { o with arrs := o.arrs ++ [(c, l)] }
+      | none => { o with bad := true }
+    | ['c', 'l', 'o', 's', 'e', 'd'] =>
+      match items.mapM natCs with
+      | some l => { o with dead := o.dead ++ l }
       | none => { o with bad := true }
     | ['o', 'p', 'e', 'n'] =>
       match items.mapM natCs with
@@ -201,6 +206,7 @@ def stepSpec (s : SpecSt) (line : String) : SpecSt × String :=
             | none => acc
             | some x => let (s', v) := specArrive acc.1 x; (s', firstSome acc.2 v)) acc) (s, none)
         let s := if ws.head? = some "close" then { s with gone := (kvNat ws "c").toList ++ s.gone } else s
+        let s := { s with gone := o.dead ++ s.gone }
         let v := match o.openL with
           | none => v
           | some openL =>
@@ -254,6 +260,8 @@ structure AccSt where
   s : St := {}
   pend : List (Src × List Item) := []    -- handed to Post, closure not yet executed
   logQ : List (Nat × List LogEnt) := []  -- per service: its goroutine's log, not yet replayed in the model
+  arrQ : List (Nat × List Item) := []    -- per client: what it read and the model has not yet written
+  dying : List Nat := []                 -- connections that ended (the client closed it / the server ended it)
   cnt : List ((Nat × Nat × Nat) × Nat) := []   -- per (service, thread, client): items issued in the model so far (= `nextSeq`)
   nfire : Nat := 0
 
@@ -336,14 +344,24 @@ def logSet (q : List (Nat × List LogEnt)) (S : Nat) (l : List LogEnt) : List (N
 /-- which service's oldest not yet replayed item can be the front's next step:
 its connection is closed (the item is dropped) or it is exactly the next thing
 that connection's client read -/
-def nextSender (a : AccSt) (arr : List (Nat × List Item)) : Option (Nat × LogEnt × List LogEnt × Item × Bool) :=
+def nextSender (a : AccSt) (arr : List (Nat × List Item)) (dying : List Nat) :
+    Option (Nat × LogEnt × List LogEnt × Item × Bool) :=
   a.logQ.findSome? fun (S, l) =>
     match l with
     | e :: rest =>
       let h := entItem S e
       if a.s.closed h.client then some (S, e, rest, h, false)
-      else if arrHead arr h.client = some h then some (S, e, rest, h, true) else none
+      else if arrHead arr h.client = some h then some (S, e, rest, h, true)
+      -- the server ended this connection and its client has read all it ever got: the session closes now, the item is dropped
+      else if dying.contains h.client ∧ arrHead arr h.client = none then some (S, e, rest, h, false)
+      else none
     | [] => none
+
+def closeNow (a : AccSt) (c : Nat) : AccSt :=
+  if a.s.closed c then a else
+  match (a.fire (.close c)).bind (·.fire (.writerStop c)) with
+  | some a' => a'
+  | none => a
 
 /-- find a schedule of the model (each service issuing in its own log order, the
 front merging the senders' queues into its mailbox and interleaving what its
@@ -352,12 +370,13 @@ stream.  An item is issued in the model only when it is due (lazily — the mode
 may issue at any time), delivered, processed and written at once, so all
 queues of the model stay short.  The choice is confluent: an enabled step
 never disables another one. -/
-def schedule (fuel : Nat) (a : AccSt) (arr : List (Nat × List Item)) : Except String AccSt :=
+def schedule (fuel : Nat) (a : AccSt) : Except String AccSt :=
   match fuel with
   | 0 => .error "out of fuel"
   | fuel + 1 =>
-    match nextSender a arr with
+    match nextSender a a.arrQ a.dying with
     | some (S, e, rest, h, consume) =>
+      let a := if consume then a else closeNow a h.client
       match accLog { a with logQ := logSet a.logQ S rest } S e with
       | .error m => .error m
       | .ok a0 =>
@@ -370,19 +389,22 @@ def schedule (fuel : Nat) (a : AccSt) (arr : List (Nat × List Item)) : Except S
             | [y] =>
               if y = h then
                 match a1.fire (.write h.client) with
-                | some a2 => schedule fuel a2 (arrPop arr h.client)
+                | some a2 => schedule fuel { a2 with arrQ := arrPop a2.arrQ h.client }
                 | none => .error "write not enabled"
               else .error s!"the model's connection {h.client} would write {showItem y}, the client read {showItem h}"
             | _ => .error s!"the model's connection {h.client} does not hold exactly {showItem h}"
-          else schedule fuel a1 arr
-    | none =>
-      match arr.find? (fun e => e.2 ≠ []) with
-      | none => .ok a
-      | some (c, l) =>
-        let x := l.headD ⟨⟨0, 0⟩, 0, 0, .push⟩
-        let nxt := (logGet a.logQ x.src.svc).head?.map (entItem x.src.svc)
-        .error (s!"client {c} read {showItem x}, but in the model the next message of service {x.src.svc} is " ++
-          (match nxt with | some y => showItem y | none => "none (nothing under way)"))
+          else schedule fuel a1
+    | none => .ok a    -- nothing more can be decided with what has been observed so far
+
+/-- what cannot be scheduled at quiescence: a client read something the model cannot write next -/
+def stuckMsg (a : AccSt) : Option String :=
+  match a.arrQ.find? (fun e => e.2 ≠ []) with
+  | none => none
+  | some (c, l) =>
+    let x := l.headD ⟨⟨0, 0⟩, 0, 0, .push⟩
+    let nxt := (logGet a.logQ x.src.svc).head?.map (entItem x.src.svc)
+    some (s!"client {c} read {showItem x}, but in the model the next message of service {x.src.svc} is " ++
+      (match nxt with | some y => showItem y | none => "none (nothing under way)"))
 
 def exceptFold {α β : Type} (f : α → β → Except String α) (a : α) (l : List β) : Except String α :=
   l.foldl (fun acc b => match acc with | .ok a => f a b | .error e => .error e) (.ok a)
@@ -395,9 +417,16 @@ def accObs (a : AccSt) (o : Obs) : Except String AccSt := do
   let a := o.logs.foldl (fun (a : AccSt) (svc, l) => { a with logQ := logSet a.logQ svc (logGet a.logQ svc ++ l) }) a
   if o.arrs.any (fun e => e.2.any (·.isNone)) then
     .error "a client read something that is not a tagged push/response (error response?)"
-  let arr := o.arrs.map (fun e => (e.1, e.2.filterMap id))
-  let work := (arr.map (·.2.length)).sum + (a.logQ.map (·.2.length)).sum
-  schedule (work + 8) a arr
+  let a := o.arrs.foldl (fun (a : AccSt) (c, l) =>
+    let cur := match a.arrQ.find? (fun e => e.1 = c) with | some e => e.2 | none => []
+    let l' := cur ++ l.filterMap id
+    { a with arrQ := if a.arrQ.any (fun e => e.1 = c) then a.arrQ.map (fun e => if e.1 = c then (c, l') else e)
+                     else a.arrQ ++ [(c, l')] }) a
+  -- a connection the server ended (failed write, …): closed in the model once its client's stream is consumed
+  let a := { a with dying := a.dying ++ o.dead }
+  let work := (a.arrQ.map (·.2.length)).sum + (a.logQ.map (·.2.length)).sum
+  -- schedule as far as the observations so far decide it (the rules are monotone: what is left waits for later observations)
+  schedule (work + 8) a
 
 def stepAccept (a : AccSt) (line : String) : AccSt × String :=
   match line.splitOn "\t" with
@@ -414,13 +443,11 @@ def stepAccept (a : AccSt) (line : String) : AccSt × String :=
           | .error e => (a, "REJECT " ++ e)
           | .ok a' =>
             if h = "close" then
-              match kvNat ws "c" with
-              | some c =>
-                match (a'.fire (.close c)).bind (·.fire (.writerStop c)) with
-                | some a'' => (a'', "ok")
-                | none => (a', "REJECT close not enabled")
-              | none => (a', "ok")
+              ({ a' with dying := a'.dying ++ (kvNat ws "c").toList }, "ok")
             else if h = "settle" then
+              match stuckMsg a' with
+              | some m => (a', "REJECT " ++ m)
+              | none =>
               -- quiescence: whatever the model still has under way towards an open client should have been read
               match o.openL with
               | none => (a', "ok")
